@@ -360,7 +360,7 @@ func completePathTable(c *Ctx, rule string) {
 		return
 	}
 	c.Analysed(fnName(cp))
-	prefixP, pathP := ssa.Value(cp.Params[0]), ssa.Value(cp.Params[1])
+	prefixP, pathP := ssa.Value(param(cp, 0)), ssa.Value(param(cp, 1))
 	cls := func(e *PPA, st *State, rv RV) string {
 		rv = e.Resolve(st, rv)
 		switch v := rv.V.(type) {
